@@ -72,6 +72,8 @@ SCENARIOS = {
     "harv-jl-none": ("harvester", {"num_batches": 2}, "joblib", None),
     "samp-pkl": ("sampler", {"batchsize": 2}, "pickle", "rows"),
     "samp-csv": ("sampler", {"batchsize": 1}, "csv", "rows"),
+    # a runner whose function has three outputs (used by C12)
+    "runner3": ("runner", {"batchsize": 2}, None, None),
     # a sampler whose table does not exist yet (used by C12)
     "samp-pkl-none": ("sampler", {"batchsize": 2}, "pickle", None),
     # results that are bools, the very last one False (used by C12)
@@ -79,7 +81,7 @@ SCENARIOS = {
 }
 
 C10_SCENARIOS = [n_ for n_ in SCENARIOS
-                 if n_ not in ("raw-bool", "samp-pkl-none")]
+                 if n_ not in ("raw-bool", "samp-pkl-none", "runner3")]
 WORKLOADS = ["sow", "resow", "grow1", "growmulti", "growmissing", "reap"]
 
 
@@ -94,6 +96,10 @@ class Scn:
             bb = next(b for b in range(5, 200) if not xfn.expected(
                 "bool", dict(a=3, b=b)))
             self.combos = {"a": [1, 2, 3], "b": [4, bb]}
+        self.var_names = "out"
+        if name == "runner3":
+            self.rkind = "tuple3n"
+            self.var_names = ["out", "half", "quarter"]
         self.f = xfn.make_fn(["a", "b"], kind=self.rkind, name="f10")
         self.nsamples = 3
         ext = {"h5netcdf": ".h5", "joblib": ".dmp", "pickle": ".pkl",
@@ -108,7 +114,7 @@ class Scn:
 
         if self.kind == "raw":
             return None
-        r = xyz.Runner(self.f, var_names="out")
+        r = xyz.Runner(self.f, var_names=self.var_names)
         if self.kind == "runner":
             return r
         path = os.path.join(d, self.dfile)
@@ -166,6 +172,11 @@ class Scn:
                 for a, b in pts}
 
     def new_cells(self):
+        if self.rkind == "tuple3n":
+            return {(v, (("a", a), ("b", b))):
+                    xfn.expected("tuple3n", dict(a=a, b=b))[i]
+                    for i, v in enumerate(self.var_names)
+                    for a in COMBOS["a"] for b in COMBOS["b"]}
         return {("out", (("a", a), ("b", b))): xfn.expected("num", dict(a=a, b=b))
                 for a in COMBOS["a"] for b in COMBOS["b"]}
 
